@@ -17,6 +17,7 @@ mod ops_inc;
 mod ops_lex;
 mod ops_net;
 mod ops_parse;
+mod ops_sem;
 mod rng;
 mod wire;
 
@@ -33,7 +34,7 @@ fn run_line(line: &str) -> String {
     }
     let (op, args) = (parts[0], &parts[1..]);
     let res = panic::catch_unwind(|| {
-        ops_lex::run(op, args).or_else(|| ops_doc::run(op, args)).or_else(|| ops_codec::run(op, args)).or_else(|| ops_net::run(op, args)).or_else(|| ops_parse::run(op, args)).or_else(|| ops_inc::run(op, args))
+        ops_lex::run(op, args).or_else(|| ops_doc::run(op, args)).or_else(|| ops_codec::run(op, args)).or_else(|| ops_net::run(op, args)).or_else(|| ops_parse::run(op, args)).or_else(|| ops_inc::run(op, args)).or_else(|| ops_sem::run(op, args))
     });
     match res {
         Ok(Some(s)) => s,
@@ -70,6 +71,7 @@ fn main() {
                 "C07" => ops_lex::gen_c07(&mut rng, if thorough { 60000 } else { 4000 }, thorough, &mut out),
                 "C01" => ops_inc::gen_c01(&mut rng, if thorough { 30000 } else { 2500 }, &mut out),
                 "C02" => ops_inc::gen_c02(&mut rng, if thorough { 30000 } else { 2500 }, &mut out),
+                "C03" => ops_sem::gen_c03(&mut rng, if thorough { 8000 } else { 600 }, &mut out),
                 "C04" => ops_parse::gen_c04(&mut rng, if thorough { 6000 } else { 500 }, &mut out),
                 "C05" => ops_parse::gen_c05(&mut rng, if thorough { 20000 } else { 1500 }, &mut out),
                 "NEW" => ops_parse::gen_new(&mut rng, if thorough { 20000 } else { 2000 }, &mut out),
